@@ -382,6 +382,18 @@ Proof.
     cbn [app]. apply colrows_rows. apply (wb_names _ W). }
   assert (Sok : seg_ok (acked s) full).
   { exists b, extra. split; [reflexivity|]. split; [exact W|]. split; [exact Mextra|].
+    split.
+    { unfold extra. apply Forall_app. split.
+      - unfold meta_tables_batch. destruct created; constructor; [|constructor].
+        unfold extra_ok. cbn [tb_name tb_rows]. apply Forall_forall. intros r Hr.
+        apply in_map_iff in Hr. destruct Hr as [x [<- _]]. left. split; [reflexivity|].
+        unfold meta_tables_row. cbn. intros y Hy. exact Hy.
+      - unfold colrows_of. clear. induction b as [|tb b IHb]; [constructor|]. cbn [flat_map].
+        apply Forall_app. split; auto. unfold meta_columns_batch.
+        destruct (new_names _ _); constructor; [|constructor].
+        unfold extra_ok. cbn [tb_name tb_rows]. apply Forall_forall. intros r Hr.
+        apply in_map_iff in Hr. destruct Hr as [x [<- _]]. right. split; [apply is_meta_columns_of|].
+        exists x. reflexivity. }
     intros t Hu. rewrite (Hmc t Hu). destruct (find_tb t b); [|split; [constructor|reflexivity]].
     split; [apply cat_rows_map|apply names_of_cat_map]. }
   pose proof (apply_batch_spec _ _ _ Ea) as [K2 _].
